@@ -752,6 +752,11 @@ func (c *evalCtx) call(x *ECall) val {
 		tn := x.Args[1].String()
 		t := c.resolveType(tn)
 		return val{t: fmt.Sprintf("(= (i.tid %s) %s)", v.t, vc.typeID(t)), typ: tBool}
+	case "unbox": // unbox(T, iface): the value of (non-pointer) type T boxed in an interface
+		argN(2)
+		t := c.resolveType(x.Args[0].String())
+		v := c.eval(x.Args[1])
+		return val{t: fmt.Sprintf("(%s (i.val %s))", vc.eng.unboxFn(vc, t), v.t), typ: t}
 	case "ifaceptr": // ifaceptr(iface): the pointer value boxed in an interface
 		argN(1)
 		v := c.eval(x.Args[0])
